@@ -113,12 +113,43 @@ template <class S, class D> void assign_pair() {
     }
 }
 
+// assignment between two bit-aligned references INTO THE SAME BUFFER (pixels that share a byte, pixels in different bytes): rows are shifted and
+// sorted this way.  Reported as an Assign event of the reference type onto itself, plus the pixels that must not change.
+template <class BF, class L, int... Cs> void neighbours() {
+    if (!mine()) return;
+    using obj_t = gil::bit_aligned_pixel_reference<BF, mp::mp_list_c<int, Cs...>, L, true>;
+    const std::vector<int> cs = {Cs...}; int bits = 0; for (int c : cs) bits += c; const int n = (int)cs.size(); const int NP = 6;
+    std::string name = "bit_aligned_ref<"; for (int c : cs) name += std::to_string(c); name += ":"; for (auto v : mapping_of<obj_t>()) name += char('0' + v); name += ">";
+    auto getb = [&](unsigned char const* b, int pos, int wd) { long long v = 0; for (int i = 0; i < wd; ++i) v |= (long long)((b[(pos + i) / 8] >> ((pos + i) % 8)) & 1) << i; return v; };
+    auto putb = [&](unsigned char* b, int pos, int wd, long long v) { for (int i = 0; i < wd; ++i) { b[(pos + i) / 8] = (unsigned char)((b[(pos + i) / 8] & ~(1u << ((pos + i) % 8))) | (((v >> i) & 1) << ((pos + i) % 8))); } };
+    auto pix = [&](unsigned char const* b, int i) { std::vector<long long> v; int pos = i * bits; for (int k = 0; k < n; ++k) { v.push_back(getb(b, pos, cs[k])); pos += cs[k]; } return v; };
+    for (int i = 0; i < NP; ++i) for (int j = 0; j < NP; ++j) { if (i == j) continue;
+        unsigned char buf[16]; for (int q = 0; q < 16; ++q) buf[q] = (unsigned char)(0x5A ^ (q * 37));
+        for (int q = 0; q < NP; ++q) { int pos = q * bits; for (int k = 0; k < n; ++k) { putb(buf, pos, cs[k], (q * 3 + k * 5 + 1) % (1 << cs[k])); pos += cs[k]; } }
+        unsigned char before[16]; memcpy(before, buf, 16);
+        obj_t ri(buf + (i * bits) / 8, (i * bits) % 8), rj(buf + (j * bits) / 8, (j * bits) % 8);
+        ri = rj;
+        bool eq = ri == rj, ne = ri != rj; bool others = true;
+        for (int q = 0; q < NP; ++q) if (q != i && pix(buf, q) != pix(before, q)) others = false;
+        for (int b = NP * bits; b < 128; ++b) if (getb(buf, b, 1) != getb(before, b, 1)) others = false;
+        J("Assign").str("how", "neighbour").str("src", name).str("dst", name + (((i * bits) / 8 == (j * bits) / 8) ? "/same-byte" : "/other-byte")).arr("smap", mapping_of<obj_t>()).arr("dmap", mapping_of<obj_t>())
+            .arr("sphys", pix(before, j)).arr("after", pix(buf, i)).boolean("eq", eq).boolean("ne", ne).boolean("eq_perturbed", false).boolean("others_kept", others).emit();
+    }
+}
+
 template <class M> void access_model() {
     if (!mine()) return;
     M m; m.set(distinct_vals<M>(2));
     std::vector<long long> atc, sem;
     mp::mp_for_each<mp::mp_iota_c<M::n>>([&](auto K) { atc.push_back((long long)(unsigned long long)gil::at_c<decltype(K)::value>(m.ref())); sem.push_back((long long)(unsigned long long)gil::semantic_at_c<decltype(K)::value>(m.ref())); });
     J j("Access"); j.str("model", M::name()).arr("map", mapping_of<typename M::obj_t>()).arr("phys", m.get()).arr("atc", atc).arr("sem", sem);
+    {   // the value type the library associates with the K-th physical / K-th semantic channel: their largest values (widths of heterogeneous packed pixels)
+        std::vector<long long> pmax, smax;
+        mp::mp_for_each<mp::mp_iota_c<M::n>>([&](auto K) { constexpr int k = decltype(K)::value; using O = typename M::obj_t;
+            pmax.push_back((long long)(unsigned long long)gil::channel_traits<typename gil::kth_element_type<O, k>::type>::max_value());
+            smax.push_back((long long)(unsigned long long)gil::channel_traits<typename gil::kth_semantic_element_type<O, k>::type>::max_value()); });
+        j.arr("phys_max", pmax).arr("sem_max", smax);
+    }
     using cs_t = typename gil::color_space_type<typename M::obj_t>::type;
     if constexpr (std::is_same<cs_t, gil::rgb_t>::value) {
         std::vector<long long> nm = {(long long)(unsigned long long)gil::get_color(m.ref(), gil::red_t()), (long long)(unsigned long long)gil::get_color(m.ref(), gil::green_t()), (long long)(unsigned long long)gil::get_color(m.ref(), gil::blue_t())};
@@ -249,6 +280,12 @@ int main(int argc, char** argv) {
     access_model<MPlanar3<gil::rgb_t>>(); access_model<MPlanar4<gil::rgba_t>>();
     access_model<PK_rgb>(); access_model<PK_bgr>(); access_model<BA_rgb>(); access_model<BA_bgr>(); access_model<PKa>(); access_model<PKb>(); access_model<PKc>(); access_model<BAa>();
     access_model<BA_232r>(); access_model<BA_232b>(); access_model<BA_333r>(); access_model<BA_333b>();
+    // heterogeneous widths placed asymmetrically under a non-identity layout (the width of a COLOUR is the width of the physical channel that holds it)
+    access_model<MPacked<uint16_t, gil::bgr_layout_t, 5, 5, 6>>(); access_model<MPacked<uint16_t, gil::rgb_layout_t, 5, 5, 6>>(); access_model<MPacked<uint16_t, gil::bgr_layout_t, 4, 5, 6>>();
+    access_model<MPacked<uint16_t, gil::argb_layout_t, 4, 5, 5, 2>>(); access_model<MPacked<uint32_t, gil::abgr_layout_t, 4, 10, 10, 8>>(); access_model<MBits<uint16_t, gil::bgr_layout_t, 4, 5, 6>>();
+    // assignment between references into one buffer
+    neighbours<uint8_t, gil::bgr_layout_t, 1, 2, 1>(); neighbours<uint8_t, gil::rgb_layout_t, 2, 2, 2>(); neighbours<uint8_t, gil::rgb_layout_t, 1, 1, 1>(); neighbours<uint16_t, gil::bgr_layout_t, 2, 3, 2>();
+    neighbours<uint16_t, gil::rgb_layout_t, 4, 4, 4>(); neighbours<uint8_t, gil::gray_layout_t, 1>(); neighbours<uint8_t, gil::gray_layout_t, 2>(); neighbours<uint8_t, gil::gray_layout_t, 4>();
     // static algorithms over triples of layouts
     for_pairs<RGB6, RGB6>([&](auto a, auto b) { static_ops<typename decltype(a)::type, typename decltype(b)::type, rgbL<1,2,0>>(); });
     for_pairs<RGBA4, RGBA4>([&](auto a, auto b) { static_ops<typename decltype(a)::type, typename decltype(b)::type, rgbaL<2,0,3,1>>(); });
